@@ -106,6 +106,13 @@ def parse_doc(tok, i=0):
     return m, i
 
 
+def diff_window(a, b, width=700):
+    """the stretch around the first difference of two long strings"""
+    k = next((i for i in range(min(len(a), len(b))) if a[i] != b[i]), min(len(a), len(b)))
+    lo = max(0, k - 200)
+    return 'at %d: %s' % (k, a[lo:lo + width]), 'at %d: %s' % (k, b[lo:lo + width])
+
+
 def parse_listing(tok):
     """{Z name S|D extra content} {M path mediatype F|f} -> (zlist, mlist)"""
     z, m = [], []
@@ -142,8 +149,18 @@ def new_real(kind, marker, settings, load_mode=False):
     return d
 
 
-def dump_real(doc, id=0):
-    """a real OpenDocument in the model's prefix form (ids by position: top 0, k-th child k, as `load` creates them)"""
+def dedup_keys(manifest):
+    """the keys of odfmanifest's dict for a raw (path, mediatype) list: first position of every path"""
+    out = []
+    for p_, _t in manifest:
+        if p_ not in out:
+            out.append(p_)
+    return out
+
+
+def dump_real(doc, keys, id=0):
+    """a real OpenDocument as load() left it, in the model's prefix form.  Ghost ids as the model assigns them: top 0,
+    a sub-document 1 + the position of its folder entry ("Object 1/Object 2/") among the manifest keys"""
     m = MDoc(id, doc.mimetype, doc.settings.hasChildNodes(), doc.folder)
     for href, (kind, data, mt) in doc.Pictures.items():
         m.regs.append((href, 'F' if kind == 0 else 'I', data, mt))
@@ -151,8 +168,9 @@ def dump_real(doc, id=0):
     m.thumb_mt = getattr(doc, '_thumbnail_mediatype', u'')
     for op in doc._extra:
         m.extras.append((op.filename, op.mediatype, op.content))
-    for i, c in enumerate(doc.childobjects):
-        m.kids.append(dump_real(c, i + 1))
+    for c in doc.childobjects:
+        path = c.folder[1:] + u'/'
+        m.kids.append(dump_real(c, keys, keys.index(path) + 1 if path in keys else -1))
     m.real = doc
     return m
 
@@ -463,7 +481,9 @@ def load_request(ps, settings_nonempty):
     mem.append((u'META-INF/manifest.xml', manifest_xml(ps['manifest'])))
     t.append(str(len(mem)))
     for n, b in mem:
-        short = b'<x>' if n.endswith('.xml') and xml_root(b) is not None and xml_root(b)[0] == OFFICENS else b
+        # the parts load() parses travel as a placeholder; a sub-document's meta.xml is kept verbatim as an extra, so it travels in full
+        parsed = n == u'meta.xml' or n.rsplit(u'/', 1)[-1] in (u'content.xml', u'styles.xml', u'settings.xml')
+        short = b'<x>' if parsed and xml_root(b) is not None and xml_root(b)[0] == OFFICENS else b
         t += [enc_str(n), enc_bytes(short)]
     t.append(str(len(settings_nonempty)))
     t += [enc_str(n) for n in settings_nonempty]
